@@ -378,6 +378,7 @@ func c16Stress(o *out, r *rng, kind string, G, iters, perCycle int) (blocked boo
 		seeds[i] = r.u64()
 	}
 	var g0idA, cyclesA atomic.Int64
+	var stop atomic.Bool // set when the run exceeds its time budget: the goroutines wind up
 	iteration := func(w *c16Worker, wr *rng) {
 		k := int64(1 + wr.intn(100))
 		w.cur.Store("BeginIteration")
@@ -386,10 +387,42 @@ func c16Stress(o *out, r *rng, kind string, G, iters, perCycle int) (blocked boo
 		w.cur.Store("IncOperations")
 		rec.IncOperations(k)
 		atomic.AddInt64(&w.progress, 1)
+		w.prog = append(w.prog, "B", fmt.Sprintf("I%d", k))
+		if wr.chance(1, 4) {
+			// one of the other public methods (each is Lock; body; Unlock and leaves the operations
+			// counter alone: SetGauge in the model), with 0 among the arguments
+			v := int64(wr.intn(3))
+			names := []string{"SetState", "IncError", "IncSize", "IncIterations", "SetWorkers", "SetFailed", "SetID",
+				"SetDuration", "SetTotalDuration"}
+			which := wr.intn(len(names))
+			w.cur.Store(names[which])
+			switch which {
+			case 0:
+				rec.SetState(v)
+			case 1:
+				rec.IncError(v)
+			case 2:
+				rec.IncSize(v)
+			case 3:
+				rec.IncIterations(v)
+			case 4:
+				rec.SetWorkers(v)
+			case 5:
+				rec.SetFailed(v == 1)
+			case 6:
+				rec.SetID(v)
+			case 7:
+				rec.SetDuration(time.Duration(v) * time.Millisecond)
+			case 8:
+				rec.SetTotalDuration(time.Duration(v) * time.Millisecond)
+			}
+			atomic.AddInt64(&w.progress, 1)
+			w.prog = append(w.prog, fmt.Sprintf("G%d", v))
+		}
 		w.cur.Store("EndIteration")
 		rec.EndIteration(time.Microsecond)
 		atomic.AddInt64(&w.progress, 1)
-		w.prog = append(w.prog, "B", fmt.Sprintf("I%d", k), "E")
+		w.prog = append(w.prog, "E")
 	}
 	endTest := func(w *c16Worker) {
 		w.cur.Store("EndTest")
@@ -405,7 +438,7 @@ func c16Stress(o *out, r *rng, kind string, G, iters, perCycle int) (blocked boo
 		go func(w *c16Worker, seed uint64) {
 			defer wg.Done()
 			wr := newRng(seed)
-			for j := 0; j < iters; j++ {
+			for j := 0; j < iters && !stop.Load(); j++ {
 				iteration(w, wr)
 			}
 			atomic.StoreInt32(&w.done, 1)
@@ -419,13 +452,14 @@ func c16Stress(o *out, r *rng, kind string, G, iters, perCycle int) (blocked boo
 		g0idA.Store(goid())
 		coll.markUser(g0idA.Load())
 		wr := newRng(seeds[0])
-		for j := 0; j < iters; j++ {
+		for j := 0; j < iters && !stop.Load(); j++ {
 			iteration(w, wr)
 			if kind != "sync" && (j+1)%perCycle == 0 {
 				endTest(w) // races with the other goroutines' calls and with the flusher
 			}
 		}
 		<-othersDone // quiesce the incrementing goroutines
+		w.prog = append(w.prog, "Q")
 		if kind != "sync" {
 			iteration(w, wr) // stamps the closing cycle
 		}
@@ -439,6 +473,11 @@ func c16Stress(o *out, r *rng, kind string, G, iters, perCycle int) (blocked boo
 		lastChange[i] = time.Now()
 	}
 	note := "ok"
+	began := time.Now()
+	budget := 12 * time.Second
+	if envTier() == "thorough" {
+		budget = 40 * time.Second
+	}
 monitor:
 	for {
 		select {
@@ -447,6 +486,10 @@ monitor:
 		case <-time.After(20 * time.Millisecond):
 		}
 		now := time.Now()
+		if now.Sub(began) > budget && !stop.Load() {
+			stop.Store(true) // not blocked, but far too slow (e.g. a pile of tickers): wind up and report
+			note = "overrun"
+		}
 		for i, w := range ws {
 			p := atomic.LoadInt64(&w.progress)
 			if p != last[i] || atomic.LoadInt32(&w.done) == 1 {
